@@ -26,7 +26,58 @@ def check(ctx):
     service_duration(ctx, P, iters)
     resample_only(ctx, P, iters)
     one_object_per_stream(ctx, P)
+    composite_distributions(ctx, P)
     ctx.assume("patience and class-change times are sampled raw (not covered by the property's wording); listed in evidence only")
+
+
+def composite_distributions(ctx, P):
+    """a composite distribution consumes from its components exactly what it hands on: a mixture draws from the one component it selected (never from the
+    others -- their sequences must not advance), a combination draws once from each of its two operands"""
+    ob = ctx.ob("COMP", "MixtureDistribution.sample draws once, from the component selected among self.dists; CombinedDistribution.sample draws once from each operand")
+    n = 0
+    for cname, want in (("MixtureDistribution", None), ("CombinedDistribution", ("self.d1", "self.d2"))):
+        ci = P.classes.get(cname)
+        if ci is None or "sample" not in ci.methods:
+            ctx.unrecognised("COMP: %s.sample not found" % cname)
+            continue
+        view = P.view(cname)
+        fn = ci.methods["sample"]
+        draws = [x for x in rules.walk(P, view, fn) if isinstance(x, ast.Call) and isinstance(x.func, ast.Attribute) and x.func.attr in ("sample", "_sample")
+                 and unparse(x.func.value) != "self"]
+        n += len(draws)
+        ob.ok("%s.sample" % cname, "%s.sample: %s" % (cname, "; ".join(unparse(d)[:50] for d in draws)))
+        def repeated(d):
+            p_ = getattr(d, "_parent", None)
+            while p_ is not None and not isinstance(p_, ast.FunctionDef):
+                if isinstance(p_, (ast.For, ast.While, ast.ListComp, ast.GeneratorExp, ast.DictComp, ast.SetComp)):
+                    return True
+                p_ = getattr(p_, "_parent", None)
+            return False
+        rep_ = [d for d in draws if repeated(d)]
+        if rep_:
+            ctx.violation(ob, "R7.component-draws", "%s.sample" % cname, unparse(rep_[0])[:80], "component-sampled-in-a-loop",
+                          "%s.sample draws from its components inside a loop/comprehension: components that are not used for this sample advance too, so a "
+                          "stateful component (Sequential, a custom generator) skips values" % cname, loc(rep_[0]))
+            continue
+        if want is None:
+            from ..model import enclosing_def
+            okk = len(draws) == 1
+            if okk:
+                recv = draws[0].func.value
+                src = unparse(rules.inline_locals(enclosing_def(draws[0]) or fn, recv))
+                if isinstance(recv, ast.Name):
+                    ds = [y for y in ast.walk(enclosing_def(draws[0]) or fn) if isinstance(y, ast.Assign) and any(isinstance(t, ast.Name) and t.id == recv.id for t in y.targets)]
+                    src = unparse(ds[0].value) if len(ds) == 1 else src
+                okk = "self.dists" in src
+            if not okk:
+                ctx.violation(ob, "R7.component-draws", "%s.sample" % cname, "; ".join(unparse(d)[:50] for d in draws) or "no draw", "mixture-draw",
+                              "a mixture must draw exactly once, from the component it selected among self.dists", loc(fn))
+        else:
+            got = sorted(unparse(d.func.value) for d in draws)
+            if got != sorted(want):
+                ctx.violation(ob, "R7.component-draws", "%s.sample" % cname, "; ".join(got), "combination-draws",
+                              "a combined distribution must draw exactly once from each of its two operands", loc(fn))
+    ctx.floor("component draws of composite distributions", n, 3)
 
 
 def one_object_per_stream(ctx, P):
